@@ -171,8 +171,22 @@ func (t *dateWithUTCTime) UnmarshalText(b []byte) error {
 }
 
 func (t *dateWithUTCTime) MarshalText() ([]byte, error) {
-	s := time.Time(*t).Format(dateWithUTCTimeLayout)
+	s := time.Time(*t).UTC().Format(dateWithUTCTimeLayout)
 	return []byte(s), nil
+}
+
+// MarshalXMLAttr omits the attribute for the zero time: a missing start or
+// end attribute means an open-ended time range. "omitempty" has no effect on
+// struct types.
+func (t *dateWithUTCTime) MarshalXMLAttr(name xml.Name) (xml.Attr, error) {
+	if time.Time(*t).IsZero() {
+		return xml.Attr{}, nil
+	}
+	b, err := t.MarshalText()
+	if err != nil {
+		return xml.Attr{}, err
+	}
+	return xml.Attr{Name: name, Value: string(b)}, nil
 }
 
 // Request variant of https://tools.ietf.org/html/rfc4791#section-9.6
